@@ -53,8 +53,9 @@
              verbatim slot         [Vba2 ws od cd text]
         with: an absent argument is not followed (after whitespace) by its opening character nor
         by a malformed escape sequence; the two delimiter characters are not text DIRECTLY in
-        the body of a delimited argument (they are inside its braced children); at most
-        8·(length of the call token) − 4 absent arguments per call (the fuel of the model).
+        the body of a delimited argument (they are inside its braced children).  (No bound on
+        the number of absent arguments: the model's fuel [parse_fuel s cx = |s| * (8 + max_args
+        cx) + 40 + max_args cx] pays for every argument slot of every specification of [cx].)
 
     STILL PARTIAL (hence the names): not in any theorem are
       - a delimited argument written directly (not inside braces) in the body of another
@@ -258,15 +259,25 @@ Proof. exact parse_unparse2_modes. Qed.
 Print Assumptions C02_parse_unparse2_modes_partial.
 
 (** ** The simulation behind it (any [Std] state, any collector with
-    [opts_ok], any offset of any input, any follow string) *)
-Theorem C02_items_simulation2_partial : forall s cx l ps o st pos fol k r,
+    [opts_ok], any offset of any input, any follow string).  Fuel: [U] units per
+    written character, for ANY [U >= 8] that exceeds the number of argument slots of
+    every specification of the context by four (an absent optional argument costs one
+    unit and writes no character; [U = 8] when no specification has more than four
+    slots); [C02_fuel_unit_ok]: the unit [fuel_unit cx = 8 + max_args cx] of the model's
+    own fuel is such a [U], for every context. *)
+Theorem C02_items_simulation2_partial : forall s cx U l ps o st pos fol k r,
+  8 <= U -> max_args cx + 4 <= U ->
   Std cx ps -> opts_ok ps o -> r <> OutOfFuel ->
   ok_items2 cx ps [] l fol = true ->
   skipn pos s = unparse_items2 l ++ fol ->
   run s false cx k (TCollect ps o (fst (absorb2 cx ps pos st l)) (pos + length (unparse_items2 l))) = r ->
-  run s false cx (k + 8 * length (unparse_items2 l)) (TCollect ps o st pos) = r.
+  run s false cx (k + U * length (unparse_items2 l)) (TCollect ps o st pos) = r.
 Proof. exact items_sim2_std. Qed.
 Print Assumptions C02_items_simulation2_partial.
+
+Theorem C02_fuel_unit_ok : forall cx, 8 <= fuel_unit cx /\ max_args cx + 4 <= fuel_unit cx.
+Proof. intros cx. exact (conj (fuel_unit_ge8 cx) (fuel_unit_slots cx)). Qed.
+Print Assumptions C02_fuel_unit_ok.
 
 (** ** Whitespace never changes the structure (extended grammar) *)
 Corollary C02_whitespace_irrelevant2_partial : forall cx d d',
